@@ -1,8 +1,8 @@
 INIT Init
 NEXT Next
 CONSTANTS
-  FlatLen = 4
-  Mode = "misc"
+  FlatLen = 3
+  Mode = "flat"
   Small = FALSE
 INVARIANT Sane
 INVARIANT ImplSatisfiesProperty
